@@ -44,6 +44,19 @@ RelRoundClauses(e) ==
     IF e.op # "iv.relative_round" THEN {}
     ELSE IF RelPanics(e.a, e.b) THEN {"C13.relative_panic"} ELSE {"C13.relative_kind", "C13.relative_correctly_rounded"}
 
+\* C14 on float intervals whose bounds are infinities (a closed set of the extended reals: [-inf,-inf] and [+inf,+inf] are
+\* degenerate two-sided intervals): constructor outcome, predicates, width and accessors stay mutually consistent
+InfFailed(e) ==
+    IF e.op # "iv.infinite_bounds" THEN {}
+    ELSE IF e.out.tag = "panic" THEN {"C14.make_outcome"}
+    ELSE IF e.lo > e.hi THEN {c \in {"C14.make_outcome"} : e.out.tag # "err"}
+    ELSE IF e.out.tag # "ok" THEN {"C14.make_outcome"}
+    ELSE {c \in {"C14.predicates"} : ~e.out.two \/ e.out.degenerate # (e.lo = e.hi)}
+         \cup {c \in {"C14.width"} : ~e.out.width_some}
+         \cup {c \in {"C14.low_high"} : ~(e.out.has_low /\ e.out.has_high /\ e.out.low_same /\ e.out.high_same)}
+         \cup {c \in {"C14.roundtrip"} : ~(e.out.contains_lo /\ e.out.contains_hi /\ e.out.copy_eq)}
+InfClauses(e) == IF e.op # "iv.infinite_bounds" THEN {} ELSE {"C14.infinite_bounds", "C14.make_outcome"}
+
 VARIABLES l, cov, nbad
 vars == <<l, cov, nbad>>
 
@@ -54,8 +67,10 @@ Bump(c, cs) == [x \in DOMAIN c \cup cs |->
 
 Next == /\ l <= Len(Rec)
         /\ LET e  == Rec[l]
-               f  == IF e.op = "iv.relative_round" THEN RelRoundFailed(e) ELSE Failed(e) \cup ApproxExact(e)
-               cs == IF e.op = "iv.relative_round" THEN RelRoundClauses(e) ELSE Clauses(e) \cup ApproxClauses(e) IN
+               f  == IF e.op = "iv.relative_round" THEN RelRoundFailed(e) ELSE IF e.op = "iv.infinite_bounds" THEN InfFailed(e)
+                     ELSE Failed(e) \cup ApproxExact(e)
+               cs == IF e.op = "iv.relative_round" THEN RelRoundClauses(e) ELSE IF e.op = "iv.infinite_bounds" THEN InfClauses(e)
+                     ELSE Clauses(e) \cup ApproxClauses(e) IN
              /\ (f # {}) => PrintT("BAD " \o ToJson([id |-> e.id, failed |-> f]))
              /\ nbad' = nbad + (IF f = {} THEN 0 ELSE 1)
              /\ cov' = Bump(cov, cs)
